@@ -62,9 +62,13 @@ Definition strip_cr (l : list N) : list N :=
   match drop_last_cr l with Some i => i | None => l end.
 
 (* ReadLine: (line, isPrefix, rest) or EOF.  A full window ending in '\r' gives the '\r' back. *)
-Inductive rline := RLine (l : list N) (pre : bool) (r : list N) | REof.
+(* The stream ends either by io.EOF or by another reader error (brk = true: io.ErrUnexpectedEOF of a
+   cut gzip stream or of a body shorter than its Content-Length, a connection error, a timeout).
+   bufio hands out the bytes it already has as a last line and reports the error on the next
+   call, exactly as for EOF; only the terminal event differs. *)
+Inductive rline := RLine (l : list N) (pre : bool) (r : list N) | REof | RBroken.
 
-Definition read_line (eager : bool) (B : nat) (s : list N) : rline :=
+Definition read_line_t (brk eager : bool) (B : nat) (s : list N) : rline :=
   match read_slice eager B s with
   | SFull l r =>
       match drop_last_cr l with
@@ -72,7 +76,7 @@ Definition read_line (eager : bool) (B : nat) (s : list N) : rline :=
       | None => RLine l true r
       end
   | SDelim l r => RLine (strip_cr l) false r
-  | SEof [] => REof
+  | SEof [] => if brk then RBroken else REof
   | SEof l => RLine l false []
   end.
 
@@ -95,43 +99,47 @@ Definition action_ok (k : nat) (a : list N) : bool :=
   negb (Nat.ltb k 5) || contains pat_create a || contains pat_index a.
 
 Section Reader.
+  Variable brk : bool.
   Variable eager : bool.
   Variable B : nat.
 
   (* readDoc's loop `for isPrefix { ReadLine }` : Ok rest.  io.EOF ends the skipped line (it is
      the last one, unterminated, and ended exactly at a buffer boundary); before the repair
      7e46066 this was an error, see ModelV0.v *)
-  Fixpoint skip_big (f : nat) (s : list N) : res (list N) :=
+  Fixpoint skip_big_t (f : nat) (s : list N) : res (list N) :=
     match f with
     | 0 => OutOfFuel
     | S f' =>
-        match read_line eager B s with
+        match read_line_t brk eager B s with
         | REof => Ok []
-        | RLine _ true r => skip_big f' r
+        | RBroken => Fail                       (* any other error: errors.Is(err, io.EOF) is false *)
+        | RLine _ true r => skip_big_t f' r
         | RLine _ false r => Ok r
         end
     end.
 
   (* skipActionLine: Ok None = io.EOF (end of the request), Fail = protocol error *)
-  Fixpoint skip_action (f : nat) (s : list N) (k : nat) : res (option (list N * nat)) :=
+  Fixpoint skip_action_t (f : nat) (s : list N) (k : nat) : res (option (list N * nat)) :=
     match f with
     | 0 => OutOfFuel
     | S f' =>
-        match read_line eager B s with
+        match read_line_t brk eager B s with
         | REof => Ok None
+        | RBroken => Fail                       (* "scanning action line: <err>" *)
         | RLine _ true _ => Fail
-        | RLine [] false r => skip_action f' r k
+        | RLine [] false r => skip_action_t f' r k
         | RLine a false r => if action_ok k a then Ok (Some (r, S k)) else Fail
         end
     end.
 
   (* readDoc: Ok (Some doc, rest) | Ok (None, rest) = size exceeded, skipped | Fail *)
-  Definition read_doc (f : nat) (s : list N) : res (option (list N) * list N) :=
-    match read_line eager B s with
+  Definition read_doc_t (f : nat) (s : list N) : res (option (list N) * list N) :=
+    match read_line_t brk eager B s with
     | REof => Fail
+    | RBroken => Fail
     | RLine d false r => Ok (Some d, r)
     | RLine _ true r =>
-        match skip_big f r with
+        match skip_big_t f r with
         | Ok r' => Ok (None, r')
         | Fail => Fail
         | OutOfFuel => OutOfFuel
@@ -154,37 +162,46 @@ Inductive outcome := Accepted (docs : list (list N)) | Rejected | Miss | Fuel.
 (* the two nested loops (ReadDoc's `for` and processDocsToCompressor's `for`) as one loop;
    acc = documents appended to the payload so far, newest first *)
 Section Run.
+  Variable brk : bool.
   Variable eager : bool.
   Variable B : nat.
   Variable classify : list N -> option cls.     (* None: the oracle table has no entry *)
 
-  Fixpoint run (f : nat) (s : list N) (k : nat) (acc : list (list N)) : outcome :=
+  Fixpoint run_t (f : nat) (s : list N) (k : nat) (acc : list (list N)) : outcome :=
     match f with
     | 0 => Fuel
     | S f' =>
-        match skip_action eager B f s k with
+        match skip_action_t brk eager B f s k with
         | OutOfFuel => Fuel
         | Fail => Rejected
         | Ok None => Accepted (rev acc)
         | Ok (Some (r, k')) =>
-            match read_doc eager B f r with
+            match read_doc_t brk eager B f r with
             | OutOfFuel => Fuel
             | Fail => Rejected
-            | Ok (None, r') => run f' r' k' acc
+            | Ok (None, r') => run_t f' r' k' acc
             | Ok (Some [], _) => Rejected                       (* empty document after action line *)
             | Ok (Some d, r') =>
                 match classify d with
                 | None => Miss
                 | Some Invalid => Rejected
-                | Some NonObject => run f' r' k' acc
-                | Some Object => run f' r' k' (d :: acc)
+                | Some NonObject => run_t f' r' k' acc
+                | Some Object => run_t f' r' k' (d :: acc)
                 end
             end
         end
     end.
 
-  Definition run_body (body : list N) : outcome := run (S (length body)) body 0 [].
+  Definition run_body_t (body : list N) : outcome := run_t (S (length body)) body 0 [].
 End Run.
+
+(* the stream that ends by io.EOF *)
+Notation read_line := (read_line_t false).
+Notation skip_big := (skip_big_t false).
+Notation skip_action := (skip_action_t false).
+Notation read_doc := (read_doc_t false).
+Notation run := (run_t false).
+Notation run_body := (run_body_t false).
 
 (* ------------------------------------------------------------------ payload *)
 
